@@ -219,6 +219,13 @@ static double sensitivity(prof const *q)
     double dt = 0;
     a_trajtrap *tt = (a_trajtrap *)malloc(sizeof(a_trajtrap));
     a_trajbell *tb = (a_trajbell *)malloc(sizeof(a_trajbell));
+    /* the conditioning of the REQUEST is measured between plans made on clean contexts (base vs perturbed inputs), not against the
+       judged context: a plan distorted by what the context held before (seeded change C14-E) must not inflate its own tolerance */
+    a_trajtrap bt;
+    a_trajbell bb;
+    memset(&bt, 0, sizeof bt);
+    memset(&bb, 0, sizeof bb);
+    if (!(call_gen(q->gen, q->gen ? (void *)&bb : (void *)&bt, q->in) > 0)) { free(tt); free(tb); return INFINITY; }
     for (int i = 0; i < 7; ++i)
     {
         for (int s = -2; s <= 2; s += 4)
@@ -232,21 +239,21 @@ static double sensitivity(prof const *q)
                 memset(tb, 0, sizeof(*tb));
                 ret = call_gen(1, tb, in);
                 if (!(ret > 0)) { dt = INFINITY; continue; }
-                dt = dmaxabs(dt, tb->t - q->tb->t);
-                dt = dmaxabs(dt, tb->tv - q->tb->tv);
-                dt = dmaxabs(dt, tb->ta - q->tb->ta);
-                dt = dmaxabs(dt, tb->td - q->tb->td);
-                dt = dmaxabs(dt, tb->taj - q->tb->taj);
-                dt = dmaxabs(dt, tb->tdj - q->tb->tdj);
+                dt = dmaxabs(dt, tb->t - bb.t);
+                dt = dmaxabs(dt, tb->tv - bb.tv);
+                dt = dmaxabs(dt, tb->ta - bb.ta);
+                dt = dmaxabs(dt, tb->td - bb.td);
+                dt = dmaxabs(dt, tb->taj - bb.taj);
+                dt = dmaxabs(dt, tb->tdj - bb.tdj);
             }
             else
             {
                 memset(tt, 0, sizeof(*tt));
                 ret = call_gen(0, tt, in);
                 if (!(ret > 0)) { dt = INFINITY; continue; }
-                dt = dmaxabs(dt, tt->t - q->tt->t);
-                dt = dmaxabs(dt, tt->ta - q->tt->ta);
-                dt = dmaxabs(dt, tt->td - q->tt->td);
+                dt = dmaxabs(dt, tt->t - bt.t);
+                dt = dmaxabs(dt, tt->ta - bt.ta);
+                dt = dmaxabs(dt, tt->td - bt.td);
             }
         }
     }
@@ -486,8 +493,29 @@ static void run_request(int gen, double const in[7], vf_rng *r)
     /* exact-size heap blocks: a write past the context hits an ASan red zone */
     q.tt = (a_trajtrap *)malloc(sizeof(a_trajtrap));
     q.tb = (a_trajbell *)malloc(sizeof(a_trajbell));
-    memset(q.tt, 0, sizeof(a_trajtrap));
-    memset(q.tb, 0, sizeof(a_trajbell));
+    /* the state of the context BEFORE the request must not matter: zeroed, filled with large positive garbage, or - the
+       realistic case - re-used after an earlier plan with a long cruise phase (seeded change C14-E: the cruise time is only
+       stored when positive, so a no-cruise plan on a re-used context keeps the previous one) */
+    switch (vf.case_no % 3 + (uint64_t)(in[3] > in[4]))
+    {
+    case 0:
+        memset(q.tt, 0, sizeof(a_trajtrap));
+        memset(q.tb, 0, sizeof(a_trajbell));
+        VF_COUNT("context-zeroed");
+        break;
+    case 1:
+        memset(q.tt, 0x47, sizeof(a_trajtrap)); /* 0x4747.. = 2.4e35 as double, 5.1e4 as float */
+        memset(q.tb, 0x47, sizeof(a_trajbell));
+        VF_COUNT("context-garbage");
+        break;
+    default:
+        memset(q.tt, 0, sizeof(a_trajtrap));
+        memset(q.tb, 0, sizeof(a_trajbell));
+        (void)a_trajtrap_gen(q.tt, 2, 2, -2, 0, 50, 0, 0);
+        (void)a_trajbell_gen(q.tb, 10, 5, 2, 0, 50, 0, 0);
+        VF_COUNT("context-reused-after-cruise-plan");
+        break;
+    }
     if (gen == 0)
     {
         double vm = in[0], ac = in[1], de = in[2], p0 = in[3], p1 = in[4], v0 = in[5], v1 = in[6];
